@@ -48,6 +48,9 @@ RAW_SNIPPETS = [
     ["#define GE(v) (LVL >= (v))", "#ifdef A", "#define LVL (GE(0) + 2)", "#if LVL > 2", "int raw@_a;", "#endif", "#else",
      "#define LVL 1", "#if GE(1)", "int raw@_b;", "#endif", "#if GE(2)", "int raw@_c;", "#endif", "#endif",
      "#undef LVL", "#undef GE"],
+    # a character constant against an identifier of the same spelling (L is an unknown identifier -> 0)
+    ["#ifdef A", "#define TAG 'L'", "#else", "#define TAG L", "#endif", "#if TAG == 'L'", "int raw@_a;", "#else",
+     "int raw@_b;", "#endif", "#if '0' == 0 || TAG == 76", "int raw@_c;", "#endif", "#undef TAG"],
     # nested use of a function-like and an object-like macro
     ["#define TWICE(x) ((x) + (x))", "#define BASE (V + 1)", "#if TWICE(BASE) > 4", "int raw@_a;", "#endif",
      "#if TWICE(TWICE(W)) == 8", "int raw@_b;", "#endif", "#undef BASE", "#undef TWICE"],
@@ -168,6 +171,8 @@ def draw_cfg(r, profile):
         "p_incstyle": r.choice([0.0, 0.2, 0.5]),
         "p_reentrant": r.choice([0.0, 0.0, 0.15, 0.3]),
         "p_defaults_hdr": r.choice([0.0, 0.15, 0.3]),
+        "p_decoy_dir": r.choice([0.0, 0.2, 0.4]),
+        "p_undef_hdr": r.choice([0.0, 0.15, 0.3]),
         "hdr_name_style": r.choice(["plain", "plain", "odd"]),
         "p_forced_rel": r.choice([0.0, 0.5]),
         "cpp": r.random() < 0.3,
@@ -195,6 +200,8 @@ def draw_cfg(r, profile):
             "unknown_flag": r.choice([0.0, 0.2, 0.4]),
         }
     if profile == "c13":
+        c["backslash_commands"] = True
+        c["space_dir"] = r.random() < 0.3
         c["spelling"] = "full"
         c["faults"] = {
             "missing_entry": r.choice([0.0, 0.15, 0.3]),
@@ -399,6 +406,8 @@ class Gen:
         dirs = [ROOT] + [os.path.join(ROOT, d) for d in IN_DIRS if d] + [BUILD_IN, BUILD_OUT,
                                                                           "proj/db"]
         hdr_dirs = [os.path.join(ROOT, d) if d else ROOT for d in IN_DIRS]
+        if cfg.get("space_dir"):
+            hdr_dirs.append(os.path.join(ROOT, "inc sp"))
         if cfg["ext_dir"]:
             dirs.append(EXT_DIR)
             hdr_dirs.append(EXT_DIR)
@@ -409,6 +418,11 @@ class Gen:
             stem = f"h{i}"
             if cfg.get("hdr_name_style") == "odd":
                 stem = r.choice([f"h{i}", f"h-{i}", f"h{i}_v2", f"h{i}.inc", f"{i}h"])
+                if r.random() < 0.3 and not cfg.get("fortran"):
+                    # include targets that are not source files by name: X-macro tables, extensionless headers.
+                    # (Never in mixed-language worlds: such a file is read in the language of whichever unit
+                    # includes it first - the open finding D6 - and the reference model only reads C.)
+                    ext = r.choice([".def", "", ".tpp"])
             names.append(f"{stem}{ext}")
         hdrs = []   # dict(name, idx, paths, dirsp, missing_alias)
         for i, nm in enumerate(names):
@@ -443,7 +457,13 @@ class Gen:
                     body = body + [["cond", [["ifdef", seen, [["code", 1]]]]],
                                    ["define", seen, None]]
                 k = r.random()
-                if r.random() < cfg.get("p_defaults_hdr", 0.0):
+                if r.random() < cfg.get("p_undef_hdr", 0.0):
+                    # a header that only takes a macro away (no #define, #include or #pragma in it)
+                    ux = r.choice(FLAG_MACROS + NUM_MACROS)
+                    items = [["code", 1], ["undef", ux]]
+                    if r.random() < 0.5:
+                        items.append(["cond", [["ifdef", r.choice(FLAG_MACROS), [["code", 1]]], ["else", None, [["code", 1]]]]])
+                elif r.random() < cfg.get("p_defaults_hdr", 0.0):
                     # a "defaults" header: nothing but several top-level #ifndef X / #define X v / #endif blocks
                     ms = r.sample(FLAG_MACROS + NUM_MACROS, r.randint(2, 3))
                     items = []
@@ -458,7 +478,7 @@ class Gen:
                     # (multi-pass / X-macro style); the cycle ends through macro state
                     ps = f"PASS_{tag}"
                     items = [["cond", [["ifndef", ps, [["define", ps, None]] + body + [["include", "q", h["name"]], ["code", 1]]],
-                                       ["else", None, [["code", 1]]]]]]
+                                       ["else", None, [["code", 1]] + self.items(1, later, [2])]]]]
                 elif k < cfg["p_once"]:
                     items = [["once"]] + body
                 elif k < cfg["p_once"] + cfg["p_guard"]:
@@ -494,9 +514,24 @@ class Gen:
             files[os.path.join(ROOT, "d1", "twin.c")] = {"lang": "c", "items": [["code", r.randint(1, 3)]]}
             files[os.path.join(ROOT, "d1", "TWIN.c")] = {"lang": "c", "items": [["code", r.randint(1, 3)], ["blank"], ["code", 1]]}
             files[os.path.join(ROOT, "d1", "Twin.c")] = {"lang": "c", "items": [["code", 1]]}
+            # ... and two headers that differ only in case, plus an include of a third spelling that does not exist
+            files[os.path.join(ROOT, "d1", "Cfgx.h")] = {"lang": "c", "items": [["code", 1], ["define", "S0", self.src_vals["S0"]]]}
+            files[os.path.join(ROOT, "d1", "CFGX.h")] = {"lang": "c", "items": [["code", 2], ["undef", "A"]]}
+            tw = os.path.join(ROOT, "d1", "twinuser.c")
+            files[tw] = {"lang": "c", "items": [["include", "q", "cfgx.h"],
+                                                ["cond", [["ifdef", "S0", [["code", 1]]], ["else", None, [["code", 1]]]]]]}
+            srcs.append(tw)
         # a file nobody compiles or includes
         if r.random() < 0.3:
             files[os.path.join(ROOT, "d2", "unused.c")] = {"lang": "c", "items": [["code", 2]] + self.items(0, [], [3])}
+        if hdrs and r.random() < cfg.get("p_decoy_dir", 0.0):
+            # a DIRECTORY that carries the name of a header, in a search directory that does not hold that header
+            h = r.choice(hdrs)
+            places = [d for d in hdr_dirs if os.path.join(d, h["name"]) not in files]
+            if places:
+                dd = os.path.join(r.choice(places), h["name"])
+                dirs.append(dd)
+                files[os.path.join(dd, "inner.h")] = {"lang": "c", "items": [["code", 1]]}
         links = []
         if cfg.get("decorate"):
             links, self.alias = self.make_links(files)
@@ -505,6 +540,8 @@ class Gen:
         # platforms
         plats = []
         inc_pool = [os.path.join(ROOT, d) for d in ["d1", "d2", "inc1", "inc2", "d1/inc", "d2/inc"]]
+        if cfg.get("space_dir"):
+            inc_pool.append(os.path.join(ROOT, "inc sp"))
         if cfg["ext_dir"]:
             inc_pool.append(EXT_DIR)
         for pi in range(cfg["n_plat"]):
@@ -529,7 +566,8 @@ class Gen:
         w = {"root": ROOT, "files": files, "dirs": dirs, "links": links, "platforms": plats,
              "excludes": [], "cbi_config": None}
         if cfg["excludes"] and not cfg.get("fortran"):
-            w["excludes"] = [r.choice(["d2/", "*.hpp", "inc2/"])]
+            w["excludes"] = r.choice([["d2/"], ["*.hpp"], ["inc2/"], ["d2/*", "!d2/s*"], ["*.h", "!h0.h", "inc1/"],
+                                      ["d1/*", "!d1/inc", "!d1/*.c"]])
         if cfg["profile"] == "c13":
             self.twin_entries(w)
         return w
@@ -547,6 +585,11 @@ class Gen:
             here = os.path.dirname(src)
             sem["forced"] = [f for f in base["forced"]
                              if f.startswith(TOP) or os.path.join(here, f) not in self._files]
+            okh = [x for x in hdrs if x["name"].endswith((".h", ".hpp"))]
+            if okh and r.random() < 0.3:
+                # build variants: the same flags, another forced configuration header
+                h = r.choice(okh)
+                sem["forced"] = [os.path.join(TOP, r.choice(h["paths"]))] if r.random() < 0.8 else []
             return sem
         sem = self._fresh_sem(src, inc_pool, hdrs)
         if base is None:
@@ -583,7 +626,10 @@ class Gen:
             if forced and r.random() < 0.6:
                 break
             # (gcc includes a header named by two -include options only once; never repeat a name)
-            cand = [x for x in hdrs if all(os.path.basename(f) != x["name"] for f in forced)]
+            # (a forced include gets no language from an includer: the SUT can only parse it if its own name has
+            # a recognised extension - a limitation outside the claimed properties, so such names are not forced)
+            cand = [x for x in hdrs if all(os.path.basename(f) != x["name"] for f in forced)
+                    and x["name"].endswith((".h", ".hpp"))]
             if not cand:
                 break
             h = r.choice(cand)
@@ -697,8 +743,10 @@ class Gen:
         if r.random() < 0.4:
             links.append({"path": os.path.join(ROOT, "d2", "dangling.c"), "target": "nothing_here.c", "kind": "dangling"})
         if r.random() < 0.4:
-            links.append({"path": os.path.join(ROOT, "d2", "outlink.c"), "target": "../../ext/outfile.c", "kind": "outside"})
-            files[os.path.join(EXT_DIR, "outfile.c")] = {"lang": "c", "items": [["code", 3]]}
+            # the outside directory is either unrelated or a sibling whose name extends the root's name
+            od = r.choice(["ext", "src-legacy", "src2"])
+            links.append({"path": os.path.join(ROOT, "d2", "outlink.c"), "target": f"../../{od}/outfile.c", "kind": "outside"})
+            files[os.path.join("proj", od, "outfile.c")] = {"lang": "c", "items": [["code", 3]]}
         if r.random() < 0.3:
             links.append({"path": os.path.join(ROOT, "Lextdir"), "target": "../ext", "kind": "outside_dir"})
         p_alias = self.cfg.get("p_alias", 0.6)
@@ -810,6 +858,10 @@ class Gen:
         argv.append(e["file"])
         if r.random() < 0.5:
             e["arguments"] = argv
+        elif cfg.get("backslash_commands") and r.random() < 0.5:
+            # the other legal way to write a shell command: backslash escapes instead of quotes
+            e["command"] = " ".join("".join(ch if (ch.isalnum() or ch in "@%+=:,./-_") else "\\" + ch for ch in a) or "''"
+                                    for a in argv)
         else:
             e["command"] = shlex.join(argv)
         return e
@@ -849,9 +901,16 @@ class Gen:
                 if kind == "missing_entry":
                     e = {"file": os.path.join(TOP, ROOT, f"gen_missing_{self.uid}.c"),
                          "arguments": ["gcc", "-DA", "-c", f"gen_missing_{self.uid}.c"]}
-                    if r.random() < 0.5:
+                    k2 = r.random()
+                    if k2 < 0.4:
                         e = {"file": f"d1/gen_missing_{self.uid}.c",
                              "command": f"gcc -c d1/gen_missing_{self.uid}.c"}
+                    elif k2 < 0.6:
+                        # absent for another reason than "no such entry": a path THROUGH a regular file
+                        srcs = sorted(p for p in self._files if p.startswith(ROOT + "/") and p.endswith((".c", ".cpp")))
+                        if srcs:
+                            through = os.path.relpath(r.choice(srcs), ROOT) + f"/part_{self.uid}.c"
+                            e = {"file": through, "arguments": ["gcc", "-c", through]}
                 elif kind == "non_source":
                     e = r.choice([
                         {"file": "s0.o", "arguments": ["gcc", "-o", "a.out", "s0.o"]},
